@@ -39,7 +39,7 @@ def gen(tier, rng, shard, nshards):
             node = S.gen_tree(rng, int(S.pick(rng, [0, 1, 1, 2, 2, 3])), o, (n, n))
             k = int(rng.integers(-n + 1, n)) if rng.random() < 0.7 else 0
         alg = S.pick(rng, ["Exact", "Exact", "Auto", OMIT])
-        yield {"spec": node, "k": k, "alg": alg}
+        yield {"spec": node, "k": k, "alg": alg, "prime": S.pick(rng, [None, None, "hutch-same-offset", "hutch-trace", "exact-other-offset"])}
 
 
 def big_node(rng, kind, n, dt):
@@ -118,6 +118,17 @@ def evaluate(ctx, node, case):
     want = np.diag(ref.M, k)
     wantB = np.diag(ref.B, k)
     out = []
+    if case.get("prime") and n <= 60:
+        # hostile history on the *same operator object*: a stochastic estimate (or another offset) was asked for first; what
+        # the exact algorithm returns afterwards does not depend on it
+        from cola.linalg import Hutch
+        ctx.count("primed_with", case["prime"])
+        if case["prime"] == "hutch-same-offset":
+            ctx.call(L.diag, A, k, Hutch(max_iters=3, bs=2, key=5))
+        elif case["prime"] == "hutch-trace":
+            ctx.call(L.trace, A, Hutch(max_iters=3, bs=2, key=5))
+        else:
+            ctx.call(L.diag, A, (k + 1) if k + 1 < n else 0, make_alg("Exact"))
     got, rule = call_diag(ctx, A, k, case["alg"])
     ctx.count("top_rule", rule)
     # (dispatch tap) neither the exact algorithm nor the automatic default at its default tolerance hands over to a
@@ -135,6 +146,12 @@ def evaluate(ctx, node, case):
         got = np.asarray(got)
         ok, d = R.close(got, want, wantB, ref.dtype, eps=max(ref.eps, R.eps_of(got.dtype) if got.dtype.kind in "fc" else 0))
         out.append(("diag", ok, {"detail": d, "rule": rule, "n": n, "k": k, "structural": structural}))
+        if ok and ctx.scribble(got, A):
+            # the diagonal handed back is the caller's: overwritten, then asked for again
+            again, _ = call_diag(ctx, A, k, case["alg"])
+            if not is_err(again):
+                ok_, d_ = R.close(np.asarray(again), want, wantB, ref.dtype, eps=max(ref.eps, R.eps_of(np.asarray(again).dtype) if np.asarray(again).dtype.kind in "fc" else 0))
+                out.append(("diag-again-after-caller-overwrote-result", ok_, {"detail": d_, "rule": rule, "n": n, "k": k}))
         if structural:  # differential: the generic probing on the same operator must agree whenever both return
             G = cola.no_dispatch(A)
             g2, _ = call_diag(ctx, G, k, "Exact")
